@@ -99,6 +99,11 @@ func runC18(ci interface{}) Result {
 	// expectation per bar: persisted (popped out, stays once in finished state),
 	// live (in the last frame, once), or absent
 	persistedSet, liveSet := map[int]bool{}, map[int]bool{}
+	// either: finished bars with successors that were all created after the bar
+	// had finished. Without the program's clock (auto refresh) the bar may have
+	// been popped before they came (it then stays on screen once, finished) or
+	// may still have handed over to them (it is then gone)
+	eitherSet := map[int]bool{}
 	if manual {
 		// without a refresh of its own the container only draws when the program
 		// asks: what was persisted and what the last frame holds comes from the
@@ -125,11 +130,14 @@ func runC18(ci interface{}) Result {
 			}
 		}
 	} else {
+		maybe := poppedDespiteSuccessor(sc)
 		for i, b := range sc.Bars {
 			if end[i].Added && !b.NoPop && !hasSucc[i] {
 				persistedSet[i] = true
 			} else if in[i] {
 				liveSet[i] = true
+			} else if end[i].Added && maybe[i] {
+				eitherSet[i] = true
 			}
 		}
 	}
@@ -179,6 +187,11 @@ func runC18(ci interface{}) Result {
 					return r
 				}
 			}
+		case eitherSet[i]:
+			if count[i] > 1 {
+				r.Err, r.Kind = fmt.Errorf("bar %d finished in pop-completed mode before its successors were created: it stays on screen once or not at all, it is there %d times; screen: %q", i, count[i], doc), "pop-count"
+				return r
+			}
 		case liveSet[i]:
 			if count[i] != 1 {
 				r.Err, r.Kind = fmt.Errorf("bar %d is in the last frame and must be on screen once, it is there %d times; screen: %q", i, count[i], doc), "live-count"
@@ -193,7 +206,7 @@ func runC18(ci interface{}) Result {
 	}
 	// popped bars stay above everything that is still part of the last frame
 	for i := range sc.Bars {
-		if persistedSet[i] {
+		if persistedSet[i] || eitherSet[i] && count[i] == 1 {
 			for j := range sc.Bars {
 				if liveSet[j] && count[j] == 1 && where[j] < where[i] {
 					r.Err, r.Kind = fmt.Errorf("popped bar %d (line %d) is below bar %d (line %d) which is still in the container; screen: %q", i, where[i], j, where[j], doc), "pop-position"
